@@ -42,7 +42,15 @@ Configs ==
     [name |-> "nested", cred |-> FALSE, mounts |-> <<"w", "w/inner", "tmp", "var/x/y">>,
      parent |-> <<0, 1, 0, 0>>, base |-> <<"w", "inner", "tmp", "y">>],
     [name |-> "nestedcred", cred |-> TRUE, mounts |-> <<"tmp", "w", "w/inner", "w/inner/deeper">>,
-     parent |-> <<0, 0, 2, 3>>, base |-> <<"tmp", "w", "inner", "deeper">>] }
+     parent |-> <<0, 0, 2, 3>>, base |-> <<"tmp", "w", "inner", "deeper">>],
+    \* mount targets that are string prefixes of each other WITHOUT being nested (siblings), shorter
+    \* name first, longer name first, and mixed with really nested ones
+    [name |-> "sibling", cred |-> FALSE, mounts |-> <<"w", "work", "w2", "tmp", "tmpx">>,
+     parent |-> <<0, 0, 0, 0, 0>>, base |-> <<"w", "work", "w2", "tmp", "tmpx">>],
+    [name |-> "siblingrev", cred |-> TRUE, mounts |-> <<"work", "w", "tmpx", "tmp">>,
+     parent |-> <<0, 0, 0, 0>>, base |-> <<"work", "w", "tmpx", "tmp">>],
+    [name |-> "siblingnested", cred |-> FALSE, mounts |-> <<"w", "w/inner", "winner", "w/innermost">>,
+     parent |-> <<0, 1, 0, 1>>, base |-> <<"w", "inner", "winner", "innermost">>] }
 
 Children(parent, i) == { j \in DOMAIN parent : parent[j] = i }
 RECURSIVE BelowP(_, _)
